@@ -65,6 +65,21 @@ def rule_r1(ctx):
             ctx.r.ok(rid, "nothing is published after the tail wake-up", f.loc(n.ast))
 
 
+def rule_r2(ctx):
+    """Shared with C12.R5: every wait on the output condition is immediately preceded by a trigger pull."""
+    from .c12 import rule_r5
+
+    rule_r5(ctx, rid="C05.R2")
+
+
+def rule_r5(ctx):
+    """Shared with C12.R2/R3: I/O-side notifications (below the mark; unconditionally on teardown)."""
+    from .c12 import rule_r2 as c12r2, rule_r3 as c12r3
+
+    c12r2(ctx, rid="C05.R5a")
+    c12r3(ctx, rid="C05.R5b")
+
+
 def rule_r3(ctx):
     rid = "C05.R3"
     ctx.r.rule(rid, "write_soon: after appending, the trigger is pulled whenever the flush raised, sent nothing or left >= send_bytes pending")
@@ -287,7 +302,7 @@ def rule_r7(ctx):
             ctx.r.violation(rid, key_of(s, None, "stop-without-notify_all"), "stop_count raised without notify_all: idle workers never see the stop request", s.loc(i.ast))
 
 
-RULES = [rule_r1, rule_r3, rule_r4, rule_r6, rule_r7]
+RULES = [rule_r1, rule_r2, rule_r3, rule_r4, rule_r5, rule_r6, rule_r7]
 
 from ..selftest import M, T, V  # noqa: E402
 
@@ -306,6 +321,8 @@ selftest = [
     M("add_task-no-notify", "task.py", "            self.queue.append(task)\n            self.queue_cv.notify()\n", "            self.queue.append(task)\n", "R7"),
     M("worker-if-wait", "task.py", "                while not self.queue and self.stop_count == 0:", "                if not self.queue and self.stop_count == 0:", "R7"),
     M("stop-notify-one", "task.py", "                self.stop_count += running - count\n                self.queue_cv.notify_all()", "                self.stop_count += running - count\n                self.queue_cv.notify()", "R7"),
+    M("wait-without-pull", "channel.py", "                    self.server.pull_trigger()\n                    self.outbuf_lock.wait()\n\n                    return", "                    self.outbuf_lock.wait()\n\n                    return", "R2"),
+    M("no-notify-on-close", "channel.py", "            self.connected = False\n            self.outbuf_lock.notify()\n", "            self.connected = False\n", None),
     T("pull-in-finally", "channel.py", "        if self.connected:\n            self.server.pull_trigger()\n\n        self.last_activity = time.time()\n\n    def cancel", "        try:\n            self.last_activity = time.time()\n        finally:\n            if self.connected:\n                self.server.pull_trigger()\n\n    def cancel"),
     T("direct-trigger-pull", "channel.py", "        if self.connected:\n            self.server.pull_trigger()\n\n        self.last_activity", "        if self.connected:\n            self.server.trigger.pull_trigger()\n\n        self.last_activity"),
     T("always-pull-in-write_soon", "channel.py", "                    if (\n                        exception\n                        or not flushed\n                        or self.total_outbufs_len >= self.adj.send_bytes\n                    ):\n                        self.server.pull_trigger()", "                    self.server.pull_trigger()"),
